@@ -4,8 +4,23 @@ import json, subprocess
 
 HOOK_COMMITS = ["cdcb137"]
 
+SEQ_NOTE = "Bounded: all sequences up to the per-table depth written to the evidence file plus all 0/1-deviation lanes; argument values range over fill patterns (zero, all-ones, two distinct-byte patterns), not all 2^64 values. Oracles are written from the specifications (DESIGN.md 9.1 lists what is asserted and what is pinned to the baseline)."
+SEQ_TECH = "stateless exhaustive DFS over all builder-operation sequences to a depth bound + deviation-bounded long lanes, executed on the real crate, every prefix judged"
+
 # property -> (engine, technique, level text, level note, design ref)
 P = {
+ "C01": ("E2", SEQ_TECH,
+         "Every prefix of every operation sequence (depth-bounded, 22 table subjects incl. the empty history and three header variants) and of every lane a^N / (ab)^(N/2) (N=300 quick, 600 + 66000-op single-kind lanes thorough, crossing 256 and 65536 entries/bytes) is executed on the real table and the bytes delivered to the sink must sum to 0 (RSDP: both ranges).",
+         SEQ_NOTE, "DESIGN.md section 4 C01"),
+ "C02": ("E2", SEQ_TECH,
+         "Same exploration as C01; in every visited state the Length field (offset 4; RSDP offset 20; FACS offset 4) must equal the number of bytes the sink received, counted by the sink and never by a crate helper.",
+         SEQ_NOTE, "DESIGN.md section 4 C02"),
+ "C03": ("E2", SEQ_TECH,
+         "Same exploration over the 13 variable-body tables; in every state an independent walker steps through the body by the entries' own length fields (HEST: by the specification's per-type sizes), must land on the image end, must find exactly the entries the history added (type, order, size), and every count/offset/string-length field must agree with what the walk finds.",
+         SEQ_NOTE, "DESIGN.md section 4 C03"),
+ "C05": ("E2", SEQ_TECH,
+         "PPTT, RHCT, RIMT, VIOT: every add operation of every node kind, with reference-taking operations instantiated with every handle selector (first, middle, latest) over earlier handles; in every intermediate image each returned handle (PPTT/RHCT: read through Debug) and each reference field must equal the offset at which the independent body walk finds the node it names.",
+         SEQ_NOTE + " RIMT/VIOT handles are opaque (no Debug): their value is observed only where a later operation uses them.", "DESIGN.md section 4 C05"),
  "C17": ("E3+E1", "complete enumeration of the accumulator's 256-state transition relation on the real code + stateright closure",
          "All 256 accumulator states x all 256 bytes x {add, sub, sink byte}, all (state, 2-byte slice) pairs for the slice and sink forms, and a stateright closure from the default accumulator that must reach exactly 256 states, each compared with a wide-integer reference. The state is one byte, so single steps from every state cover every history: this is a complete check, not a bound.",
          "Trusts that raw_value() exposes the whole state (the struct has a single u8 field) and that the host is 64-bit little-endian.",
